@@ -26,6 +26,12 @@ def f2hex(x):
     return float(x).hex()
 
 
+class HarnessCrash(RuntimeError):
+    def __init__(self, tu, text, rc, stderr, native):
+        RuntimeError.__init__(self, 'harness %s (%s) exited rc=%d: %s' % (tu.name, 'native' if native else 'recording', rc, stderr))
+        self.tu, self.text, self.rc, self.stderr, self.native = tu, text, rc, stderr, native
+
+
 class Dag:
     def __init__(self, d):
         self.mode = d.get('mode')
@@ -108,7 +114,7 @@ def run(tu, script_text, native=False, keep=False):
     try:
         r = subprocess.run([exe, sp, op], capture_output=True, text=True, timeout=600)
         if r.returncode != 0:
-            raise RuntimeError('harness %s failed rc=%d: %s\nscript:\n%s' % (tu.name, r.returncode, r.stderr[-2000:], script_text[:3000]))
+            raise HarnessCrash(tu, script_text, r.returncode, r.stderr[-1500:], native)
         with open(op) as f:
             d = json.load(f)
     finally:
